@@ -91,7 +91,7 @@ func Prop() *core.Prop {
 		Race:  true,
 		Rule: "case i runs one of: (transfer, 5/10) two real sessions joined by bufconn.Pipe, each serving a mux with ibb.Handle; 1-2 streams opened from either end with block size in {1,2,3,4,5,63,64,4095,4096,65535,default}, IQ or message carrier, payload lengths around multiples of the block size, of 3 and of 768/1024, PRNG partitions into Write/Flush, both directions at once, PRNG reader buffer sizes and start delays, transport read chunking and write yields; either side closes; " +
 			"(raw-recv, 2/10) the library accepts a stream from a raw XEP-0047 speaker that interleaves valid data with packets for unknown/closed sids, out-of-sequence numbers, undecodable base64 and packets exceeding SetReadBuffer; (raw-send, 1/10) the library opens towards the raw speaker, which refuses or accepts and then acts as an independent receiver; " +
-			"(listener, 1/10) the accepting side's API — Listen, Accept, Expect (live, cancelled, expired, replaced), Listener.Close idle and while an <open/> waits for Accept, several Expects and an Accept at once, re-Listen — against the raw speaker and against a second library session; streams must go to the entitled call, nothing may panic, and the serve loop may not stay parked in the IBB handler unless it is the application that keeps an <open/> waiting; (close-fail, 1/20) a local Close that does not go through (its <close/> unanswered until the write deadline, answered with an error, transport write failing) or that runs while data is coming in, followed by data / out-of-sequence data / a <close/> from the speaker for that sid and a barrier: no panic, answers as for a stream that is either still open or gone, EOF for the reader if the speaker's close is accepted; (raw-wrap, case 3 of every tier) the raw speaker sends 65 541 one-byte packets numbered 0…65535,0…4 in batches without waiting (message carrier: no refusal stanza may come back; IQ carrier: every packet acknowledged), a reader drains, bytes must be equal; (forced, 1/10) scenarios I1-I3 park the reader at ibb.read.wait or the handler at ibb.data.notify with the controller, I4 parks the serve loop at ibb.open.handoff between the lookup of an expected stream and its hand-over while the Expect call gives up, I5 parks the handler at ibb.data.notify while a local Close fails on a write deadline that has passed (the serve loop must survive and answer a ping). Thorough case 0 sends 65 537+ packets on one stream. Oracle: byte equality per direction, consecutive seq on a wire tap, EOF placement, error condition per injected packet, stall rule for parked readers, race detector. distinct = distinct (shape, outcome) signatures.",
+			"(listener, 1/10) the accepting side's API — Listen, Accept, Expect (live, cancelled, expired, replaced), Listener.Close idle and while an <open/> waits for Accept, several Expects and an Accept at once, re-Listen — against the raw speaker and against a second library session; streams must go to the entitled call, nothing may panic, and the serve loop may not stay parked in the IBB handler unless it is the application that keeps an <open/> waiting; (close-fail, 1/20) a local Close that does not go through (its <close/> unanswered until the write deadline, answered with an error, transport write failing) or that runs while data is coming in, followed by data / out-of-sequence data / a <close/> from the speaker for that sid and a barrier: no panic, answers as for a stream that is either still open or gone, EOF for the reader if the speaker's close is accepted; (raw-wrap, case 3 of every tier) the raw speaker sends 65 541 one-byte packets numbered 0…65535,0…4 in batches without waiting (message carrier: no refusal stanza may come back; IQ carrier: every packet acknowledged), a reader drains, bytes must be equal; (forced, 1/10) scenarios I1-I3 park the reader at ibb.read.wait or the handler at ibb.data.notify with the controller, I4 parks the serve loop at ibb.open.handoff between the lookup of an expected stream and its hand-over while the Expect call gives up, I5 parks the handler at ibb.data.notify while a local Close fails on a write deadline that has passed (nothing may panic, on the caller's goroutine or on the serve loop; whether the session still answers afterwards is counted, not judged). Thorough case 0 sends 65 537+ packets on one stream. Oracle: byte equality per direction, consecutive seq on a wire tap, EOF placement, error condition per injected packet, stall rule for parked readers, race detector. distinct = distinct (shape, outcome) signatures.",
 		Assumptions: []string{
 			"bufconn.Pipe is a faithful reliable ordered transport",
 			"the closing side's reader is only required to deliver a prefix of what the other side wrote; the non-closing side's last 0-2 bytes (incomplete base64 group) may legitimately wait for its own close",
